@@ -64,7 +64,7 @@ func (a1 jsonMultiset) diff(n JsonNode, path path, metadata []Metadata, strategy
 		case mergePatchStrategy:
 			e = DiffElement{
 				Path:      path.prependMetadataMerge(),
-				NewValues: nodeList(n),
+				NewValues: []JsonNode{n},
 			}
 		default:
 			e = DiffElement{
